@@ -628,6 +628,9 @@ def _profile_shapes(tier):
                             for ins in (0, 1, 2):
                                 add(ka, kb, r, lb, sb, eb, ps, ins)
     return out
+def _profile_mirror_shapes(tier):
+    sh = _profile_shapes(tier)
+    return sh[:2] + sh[3:4] if tier == 'quick' else sh
 Q(id='C07.profiles.fwd_groups', props=['C07', 'C08'], cls='B', harness='c07_profiles.c', entry='h_c07_profiles', shapes=_profile_shapes,
   mode='wrap', unwind=8, timeout=900, funcs=['aln_seqprofile_foward', 'aln_profileprofile_foward', 'make_profile_n', 'update_n', 'set_gap_penalties_n'],
   srcs=['lib/src/aln_mem.c'], native_srcs=['lib/src/tldevel.c', 'lib/src/aln_mem.c'], trusted=[TRUST_MSG],
@@ -636,3 +639,31 @@ Q(id='C17.sort_by_both', props=['C17'], cls='P', harness='c17_comparators.c', en
   mode='wrap', unwind=8, timeout=600, funcs=['sort_by_both', 'sort_by_name', 'sort_by_chksum'],
   native_srcs=['lib/src/tldevel.c'], trusted=[TRUST_MSG, 'strncmp: CBMC library model'],
   assumptions=[A_WRAP, 'names: all NUL-terminated strings of up to 4 bytes (full byte domain, so proper prefixes included); checksums: full int domain'])
+
+Q(id='C07.profiles.bwd_mirror', props=['C07', 'C08'], cls='B', harness='c07_profiles.c', entry='h_c07_profiles_mirror', shapes=_profile_mirror_shapes, defs=['-DKV_ENTRY_MIRROR'],
+  mode='wrap', unwind=8, timeout=1200, funcs=['aln_seqprofile_backward', 'aln_profileprofile_backward', 'aln_seqprofile_foward', 'aln_profileprofile_foward', 'make_profile_n', 'update_n', 'set_gap_penalties_n'],
+  srcs=['lib/src/aln_mem.c'], native_srcs=['lib/src/tldevel.c', 'lib/src/aln_mem.c'], trusted=[TRUST_MSG],
+  assumptions=[A_FLOAT, A_KFLOAT, A_WRAP, A_NOFAIL, 'bounded: same shapes as C07.profiles.fwd_groups'])
+
+def _meetup_shapes(tier):
+    out = []
+    for lb in ([2] if tier == 'quick' else [2, 3]):
+        for sb in (0, 1):
+            for eb in (lb - 1, lb):
+                if eb - sb < 1:
+                    continue
+                if lb == 3 and sb == 0 and eb == 3:
+                    continue      # the full 3-column block of the profile-profile meetup does not finish in 15 min
+                for ps in ([2] if tier == 'quick' else [0, 2]):
+                    out.append(dict(name='lb%d_sb%d_eb%d_p%d' % (lb, sb, eb, ps), defs=dict(KV_ROWS=2, KV_LB=lb, KV_SB=sb, KV_EB=eb, KV_PSET=ps)))
+    return out
+A_MEET = 'bounded: blocks of 1-2 (thorough 3) columns, every start/end-of-b case, state values -FLT_MAX or whole numbers in [-30,30] (symbolic), concrete penalties'
+Q(id='C07.seqseq.meetup', props=['C07'], cls='B', harness='c07_seqseq.c', entry='h_c07_meetup', shapes=_meetup_shapes, defs=['-DKV_ENTRY_MEETUP'],
+  mode='wrap', unwind=8, timeout=900, funcs=['aln_seqseq_meetup'], trusted=[TRUST_MSG, 'fabsf: CBMC library model'],
+  assumptions=[A_FLOAT, A_WRAP, A_MEET], native_srcs=['lib/src/tldevel.c'])
+for _ka, _kb, _nm in ((2, 1, 'seqprofile'), (2, 2, 'profileprofile')):
+    Q(id='C07.%s.meetup' % _nm, props=['C07'], cls='B', harness='c07_profiles.c', entry='h_c07_profiles_meetup', shapes=_meetup_shapes,
+      defs=['-DKV_ENTRY_MEETUP', '-DKV_KA=%d' % _ka, '-DKV_KB=%d' % _kb],
+      mode='wrap', unwind=8, timeout=900, funcs=['aln_%s_meetup' % _nm, 'make_profile_n', 'update_n', 'set_gap_penalties_n'],
+      srcs=['lib/src/aln_mem.c'], native_srcs=['lib/src/tldevel.c', 'lib/src/aln_mem.c'], trusted=[TRUST_MSG, 'fabsf: CBMC library model'],
+      assumptions=[A_FLOAT, A_WRAP, A_NOFAIL, A_MEET, 'profiles of groups of identical copies built by the real profile code'])
